@@ -87,7 +87,9 @@ SPEC = {
     "theorems": [T + n for n in [
         "source_shape_as_modelled", "descriptor_tables_agree", "register_class_of_descriptor", "msl_entry_names_agree",
         "annot_matches_meta_hlsl", "annot_matches_meta_msl", "static_object_entry_without_annotation",
-        "descriptor_kind_count", "entry_named_and_defined", "entry_named_and_defined_needs_name_kept"]],
+        "descriptor_kind_count", "meta_bijective_hlsl", "meta_bijective_msl", "msl_sort_keeps_sorted",
+        "excluded_declarations", "used_sound_complete_partial", "used_flag",
+        "entry_named_and_defined", "entry_named_and_defined_needs_name_kept"]],
     "harness": "c05",
     "nontrivial": nontrivial,
     "finding_key": finding_key,
